@@ -109,43 +109,40 @@ hp_alloc_slots(size_t slots)
 	return (NULL);
 }
 
-#ifdef HP_X_CONSTBUF
-#define HP_X_ALLOC(s) malloc((HP_MAXN + 1) * sizeof(void *))
-#else
-#define HP_X_ALLOC(s) hp_alloc_slots(s)
-#endif
-#ifdef HP_X_POOL
-#define HP_X_POOLDECL hp_rec_t * pool_ = malloc(HP_MAXN * sizeof(hp_rec_t)); __CPROVER_assume(pool_ != NULL);
-#define HP_X_RECALLOC(k) (&pool_[k])
-#else
-#define HP_X_POOLDECL
-#define HP_X_RECALLOC(k) malloc(sizeof(hp_rec_t))
-#endif
 /*
- * HP_MK_LIST(L, n): an arbitrary well-formed pointer list of n <= HP_MAXN elements in an allocation of
- * n*8 .. HP_MAXALLOC bytes; every element points to one of HP_MAXN record objects R[0..HP_MAXN) with arbitrary
- * contents (duplicates allowed; the handle invariant, where assumed, excludes them).
+ * HP_MK_LIST(L, n, use_rc): a well-formed pointer list of n <= HP_MAXN elements in an exact-size allocation of
+ * n .. HP_MAXN+1 slots.  Slot k holds record object R[k] (distinct heap objects with arbitrary contents); when
+ * use_rc is set the record in slot k carries position k (handle invariant).
+ * Layout: "slot k -> R[k]" is without loss of generality for heaps of distinct elements (the records are
+ * interchangeable fresh objects, the code never compares or orders element pointers).  An arbitrary
+ * slot -> record map (duplicate pointers included) costs > 600 s at 7 elements; it is covered at a smaller
+ * size by the groups built with -DHP_ANYLAYOUT.
  */
-#define HP_MK_LIST(L, n) \
+#ifdef HP_ANYLAYOUT
+#define HP_SEL_(k) ({ size_t sel_; __CPROVER_assume(sel_ < HP_MAXN); sel_; })
+#else
+#define HP_SEL_(k) (k)
+#endif
+#define HP_MK_LIST(L, n, use_rc) \
 	IN(size_t, n); IN(size_t, L##_slots); \
 	__CPROVER_assume(n <= HP_MAXN && n <= L##_slots && L##_slots <= HP_MAXALLOC / sizeof(void *)); \
 	size_t L##_alloc = L##_slots * sizeof(void *); \
 	struct elasticarray * L##_ea = malloc(sizeof(struct elasticarray)); \
 	__CPROVER_assume(L##_ea != NULL); \
-	void ** L##_buf = HP_X_ALLOC(L##_slots); \
+	void ** L##_buf = hp_alloc_slots(L##_slots); \
 	__CPROVER_assume(L##_buf != NULL); \
 	L##_ea->size = n * sizeof(void *); L##_ea->alloc = L##_alloc; \
 	if (L##_alloc == 0) { free(L##_buf); L##_ea->buf = NULL; } else L##_ea->buf = L##_buf; \
 	hp_rec_t * R[HP_MAXN]; \
-	HP_X_POOLDECL \
 	for (size_t k_ = 0; k_ < HP_MAXN; k_++) { \
-		R[k_] = HP_X_RECALLOC(k_); \
+		R[k_] = malloc(sizeof(hp_rec_t)); \
 		__CPROVER_assume(R[k_] != NULL); \
 	} \
 	for (size_t k_ = 0; k_ < HP_MAXN; k_++) { \
-		size_t sel_; \
-		__CPROVER_assume(sel_ < HP_MAXN); \
-		if (k_ < n) L##_buf[k_] = R[sel_]; \
+		if (k_ < n) { \
+			L##_buf[k_] = R[HP_SEL_(k_)]; \
+			if (use_rc) __CPROVER_assume(HP_POS(L##_buf[k_]) == k_); \
+		} \
 	} \
 	PTRLIST L = (PTRLIST)L##_ea
 
@@ -154,6 +151,18 @@ hp_alloc_slots(size_t slots)
 	__CPROVER_assume(H != NULL); \
 	H->compar = HP_COMPAR; H->setreccookie = (use_rc) ? HP_SETRC : NULL; H->cookie = ck; \
 	H->elems = H##_l; H->nelems = n
+
+/*
+ * HP_SPLIT(v, stmt): execute stmt with v replaced by each constant 0 .. HP_MAXN (case split on a symbolic
+ * index, so that the symbolic executor sees constant array indices; the union of the cases is all of v's
+ * range, nothing is cut off: values above HP_MAXN fall into the last, unconstrained branch).
+ */
+#define HP_SP_(c, v, stmt) if ((c) <= HP_MAXN && v == (c)) { const size_t v##_c = (c); stmt; } else
+#define HP_SPLIT(v, stmt) \
+	HP_SP_(0, v, stmt) HP_SP_(1, v, stmt) HP_SP_(2, v, stmt) HP_SP_(3, v, stmt) HP_SP_(4, v, stmt) \
+	HP_SP_(5, v, stmt) HP_SP_(6, v, stmt) HP_SP_(7, v, stmt) HP_SP_(8, v, stmt) HP_SP_(9, v, stmt) \
+	HP_SP_(10, v, stmt) HP_SP_(11, v, stmt) HP_SP_(12, v, stmt) HP_SP_(13, v, stmt) HP_SP_(14, v, stmt) \
+	HP_SP_(15, v, stmt) { const size_t v##_c = v; stmt; }
 
 /* release what the harness allocated for a list (for --memory-leak-check groups) */
 #define HP_FREE_RECS() do { for (size_t k_ = 0; k_ < HP_MAXN; k_++) free(R[k_]); } while (0)
